@@ -49,6 +49,24 @@ def check_bban(rec: Rec, cc: str, bban: str, origin="gen"):
         except Exception as e:  # noqa: BLE001
             rec.fail(f"crash|{type(e).__name__}|{frame_of(e)}", "pair_total", {**inp, "digits": dd}, "verdict",
                      f"{type(e).__name__}: {e}")
+    # the same texts handed over as a str subclass / as an unvalidated IBAN object (argument forms, vlib/dims.py)
+    from .. import dims
+    w = int(want)
+    probe = {want, "00", "01", "99", f"{(w + 1) % 100:02d}"} | {f"{a:02d}" for a in (w - 97, w + 97) if 0 <= a <= 99}
+    for dd in sorted(probe):
+        for form, v in dims.arg_forms(cc + dd + bban, IBAN):
+            try:
+                IBAN(v)
+                ok = True
+            except SchwiftyException:
+                ok = False
+            except Exception as e:  # noqa: BLE001
+                rec.fail(f"crash|{type(e).__name__}|{frame_of(e)}", "pair_total", {**inp, "digits": dd, "form": form}, "verdict",
+                         f"{type(e).__name__}: {e}")
+                continue
+            if ok != (dd == want):
+                rec.fail(f"pairs|argform-{form}|{'alias_accepted' if ok else 'canonical_rejected'}", "exactly_one_pair",
+                         {**inp, "digits": dd, "form": form}, dd == want, ok)
     if accepted != [want]:
         extra = [a for a in accepted if a != want]
         kind = ("alias_accepted:" + ",".join(extra)) if extra else "canonical_rejected"
